@@ -41,6 +41,46 @@ def gen_lines(r, n):
     return out
 
 
+def py_oracle(line, out):
+    """the property's statement (byte-string semantics) evaluated on what the real library printed; None = holds"""
+    toks = line.split()[1:]
+    st, nleaf, rs = [], 1, []
+    for tk in toks:
+        if tk[0] == "L":
+            k = int(tk[1:])
+            if len(st) < 64: st.append(bytes((nleaf * 31 + i * 7 + 1) % 256 for i in range(k)))
+            nleaf += 1
+        elif tk == "C" and len(st) >= 2:
+            b = st.pop(); a = st.pop(); st.append(a + b)
+        elif tk == "D" and st and len(st) < 64:
+            st.append(st[-1])
+        elif tk[0] == "S" and st:
+            o, l = map(int, tk[1:].split(","))
+            st[-1] = st[-1][o:o + l] if o < len(st[-1]) else b""
+        elif tk[0] == "R" and st:
+            rs.append(int(tk[1:]))
+    if not st:
+        return None if out.strip() == "empty-stack" else "expected empty-stack"
+    want = st[-1]
+    f = out.split()
+    robs = [x for x in f if x.startswith("R")]
+    try:
+        size = int([x for x in f if x.startswith("size=")][0][5:])
+        regs = [x for x in f if x.startswith("regions=")][0][8:]
+        byts = [x for x in f if x.startswith("bytes=")][0][6:]
+    except Exception:
+        return "unparseable output"
+    if size != len(want): return "size %d, expected %d" % (size, len(want))
+    if (byts if byts != "-" else "") != want.hex(): return "bytes differ from the denoted byte string"
+    pos = 0
+    for r in [x for x in regs.split(",") if x]:
+        o, n = map(int, r.split(":"))
+        if o != pos or n <= 0: return "regions do not tile the string in order (%s)" % regs[:60]
+        pos += n
+    if pos != size: return "regions do not cover the string"
+    return None   # copy_region results are compared with the model only (they depend on the representation)
+
+
 def run(ctx):
     ctx.proof("DispatchVerif.Props.C13", THEOREMS)
     ctx.assumptions += ["malloc succeeds", "offsets and lengths are size_t values (the model uses unbounded naturals; the harness feeds values up to 2^64-1)",
@@ -49,6 +89,15 @@ def run(ctx):
     h = ctx.harness("lfn")
     lines = gen_lines(ctx.rng.fork("data"), 60000 if ctx.thorough else 8000)
     real, rc, err = run_lines(h, lines)
+    bad = []
+    for l, o in zip(lines, real):
+        why = py_oracle(l, o)
+        if why: bad.append((l, o, why))
+    if len(real) < len(lines):
+        bad.append((lines[len(real)], "(harness died)", "the library crashed or aborted on this program"))
+    for l, o, why in bad[:3]:
+        ctx.violation("dispatch_data: %s for program `%s` -> %s" % (why, l[:200], o[:160]), {"line": l, "real": o, "why": why}, signature="data:" + why.split()[0])
+    ctx.cov["layers"]["byte-string oracle"] = {"evaluations": len(real), "failures": len(bad)}
     ctx.cov["rule"] = ("L-fn: random dispatch_data programs (leaves of 0-12 bytes, concat, dup, subrange with in-range / boundary / out-of-range / huge "
                        "offsets and lengths, copy_region) on a stack; real vs model on size, region tiling, bytes, copy_region results. Oracle: random "
                        "retain/release histories with destructor counting. distinct_nontrivial = distinct programs with at least one concat or subrange")
